@@ -217,6 +217,20 @@ def replay(arg):
         rates = get_scene_rates(st2)
         if any(r_ == r_ and r_ != float("inf") and not (-1e-12 <= r_ <= 1 + 1e-12) for r_ in rates):
             mism.append(("status-rate-out-of-range", "scene rates %s" % (rates,), rep))
+        # the rates are the tallies over their total (TP, FP, TN, FN order), and the per-object rates likewise
+        if tot2 > 0:
+            want_r = tuple(sum(len(getattr(s_, a)) for s_ in st2) / tot2 for a in ("tp_frame_nums", "fp_frame_nums", "tn_frame_nums", "fn_frame_nums"))
+            if any(abs(a - b) > 1e-12 for a, b in zip(rates, want_r)):
+                mism.append(("scene-rates", "get_scene_rates %s, tallies give %s" % (rates, want_r), rep))
+            for s_ in st2:
+                tot_ = len(s_.total_frame_nums)
+                for r_ in s_.get_status_rates():
+                    want_ = len({"TP": s_.tp_frame_nums, "FP": s_.fp_frame_nums, "TN": s_.tn_frame_nums, "FN": s_.fn_frame_nums}[str(r_.status)]) / tot_ if tot_ else None
+                    # as built, a status that never occurred for the object has the rate inf ("undefined"), not 0
+                    if want_ is not None and not (want_ == 0 and r_.rate == float("inf")) and abs(r_.rate - want_) > 1e-12:
+                        mism.append(("status-rate", "ground truth %s: %s rate %r, tallies give %r" % (s_.uuid, r_.status, r_.rate, want_), rep))
+    if not st2 and any(v != float("inf") for v in get_scene_rates([])):
+        mism.append(("scene-rates", "get_scene_rates([]) = %s" % (get_scene_rates([]),), rep))
     return 1, mism
 
 
